@@ -48,3 +48,14 @@ Fixpoint find_prefix (states : list state) (i : nat) (acked : nat) (obs : string
       | None => if (acked <=? i)%nat && String.eqb (show_view s) obs then Some i else None
       end
   end.
+
+(** Index of the oldest such prefix.  When several prefixes at or above [acked] show the observed view (a
+    logged write that changed nothing, such as ZPOPMIN of an absent key), the observation does not say how
+    many records the log still holds: anything between the oldest and the newest match. *)
+Fixpoint find_prefix_oldest (states : list state) (i : nat) (acked : nat) (obs : string) : option nat :=
+  match states with
+  | [] => None
+  | s :: r =>
+      if (acked <=? i)%nat && String.eqb (show_view s) obs then Some i
+      else find_prefix_oldest r (S i) acked obs
+  end.
